@@ -213,7 +213,7 @@ pub fn run(ctx: &Ctx, out: &mut CaseOut) {
                                 out.evals += 1;
                                 if &a != fj {
                                     ok = false;
-                                    let stale = is_slg && crate::common::slg_stale_table(&mut slg_s);
+                                    let stale = is_slg && crate::common::slg_stale_table(&mut slg_s, &pj.goal);
                                     out.violation(
                                         if stale && a.is_none() && fj.is_some() {
                                             Some("slg:stale-delayed-answer-table")
